@@ -398,6 +398,38 @@ theorem fdtw_links_read_back (sqrt : α → α) (big : α) (w : α → α → α
 
 end links
 
+section features
+variable {α : Type} [Add α] [Sub α] [Mul α] [Div α] [LinearOrder α] [OfNat α 0]
+
+omit [Div α] in
+/-- **`diff`, `ex`, `ey`, read back**: on the track that `_dtw` returns, observation `j` of track1 — whose partners, in coupling
+order, are `partners S.reverse j`, the last of them being `i` — holds exactly that list in `pair`, and in `diff`, `ex`, `ey` the
+distance and the coordinate differences to that **last** partner `track2[i]` (`rowFor`); nothing of an earlier state -/
+theorem features_read_back (sqrt : α → α) (w : α → α → α) (dim : Nat) (t1 t2 : List (Pt α))
+    (h1 : 0 < t1.length) (h2 : 0 < t2.length) :
+    ∃ out, dtw sqrt w dim t1 t2 = some out ∧
+      ∀ j i, j < t1.length → (partners out.S.reverse j).getLast? = some i →
+        out.rows[j]? = some (rowFor sqrt dim t1 t2 j i (partners out.S.reverse j)) := by
+  have hbp := walkF_backPath w 0 (Dmat sqrt dim t1 t2) (t1.length + t2.length) (t2.length - 1) (t1.length - 1) (by omega)
+  have hhd := walkF_head w 0 (Dmat sqrt dim t1 t2) (t1.length + t2.length) (t2.length - 1, t1.length - 1)
+  have hb := backPath_bounds _ _ _ hbp hhd
+  have he : dtw sqrt w dim t1 t2 = some (Out.mk (T w 0 (Dmat sqrt dim t1 t2) (t2.length - 1) (t1.length - 1))
+      (walkF w 0 (Dmat sqrt dim t1 t2) (t1.length + t2.length) (t2.length - 1, t1.length - 1))
+      ((t1.map (fun _ => ({} : Row α))).mapIdx (fun j r =>
+        (walkF w 0 (Dmat sqrt dim t1 t2) (t1.length + t2.length) (t2.length - 1, t1.length - 1)).reverse.foldl
+          (stepRow sqrt dim t1 t2 j) r))
+      (walkF w 0 (Dmat sqrt dim t1 t2) (t1.length + t2.length) (t2.length - 1, t1.length - 1)).length) := by
+    unfold dtw dtwOn
+    rw [distCols_eq, dtwCore_spec w 0 _ _ _ h1 h2]
+    exact fillAF_rows sqrt dim t1 t2 _ _ (fun s hs => by have := hb s hs; omega)
+  refine ⟨_, he, ?_⟩
+  · intro j i hj hlast
+    simp only [List.getElem?_mapIdx, List.getElem?_map, List.getElem?_eq_getElem hj, Option.map_some]
+    rw [foldl_stepRow_last, hlast]
+    simp
+
+end features
+
 /-! ### the public entry point `match`, over an ordered field (`ℚ`, `ℝ`) -/
 section field
 variable {α : Type} [Field α] [LinearOrder α] [IsStrictOrderedRing α]
@@ -632,6 +664,13 @@ example :
     (dtw (α := Int) id (weight PNorm.one) 1 [⟨0, 0, 0⟩, ⟨0, 0, 1⟩, ⟨0, 0, 0⟩] [⟨0, 0, 1⟩, ⟨0, 0, 0⟩, ⟨0, 0, 1⟩]).map
       (fun o => (o.score, o.S, o.rows.map (·.pair), o.nbLinks))
     = some (2, [(2, 2), (2, 1), (1, 0), (0, 0)], [[0, 1], [2], [2]], 4) := by decide
+
+/-- same run, `diff` read back: observation 0 has partners `[0, 1]` and holds the distance to the last one (`|0 - 0|`), observations
+1 and 2 have the single partner 2 (`|1 - 1|`, `|0 - 1|`), as `features_read_back` says -/
+example :
+    (dtw (α := Int) id (weight PNorm.one) 1 [⟨0, 0, 0⟩, ⟨0, 0, 1⟩, ⟨0, 0, 0⟩] [⟨0, 0, 1⟩, ⟨0, 0, 0⟩, ⟨0, 0, 1⟩]).map
+      (fun o => (o.rows.map (·.diff), readBack o.rows))
+    = some ([some 0, some 0, some 1], [(0, 0), (1, 0), (2, 1), (2, 2)]) := by decide
 
 /-- the fast variant on the same input (`big = 1000`): same score 2, a different optimal coupling. -/
 example :
